@@ -163,6 +163,60 @@ func ruleC05Window(c *Ctx) {
 		}
 	}
 	c.Check(okE, "c05.window", "(*Query).exec/no-error", c.P.Pos(first.Pos()), "no error exit after the first reslice", whyE)
+	// an empty window is an empty sequence of rows: outside the FROM-less (dual) arm no success exit of exec hands out
+	// the untyped nil — its callers (CTE and derived-table builders, EXISTS, the inner arrays) convert the result to rows
+	resCell := resultCell(exec, 0)
+	okS, whyS := true, ""
+	if resCell != nil && errCell != nil {
+		for _, st := range storesTo(resCell) {
+			cst, isC := st.Val.(*ssa.Const)
+			if st.Parent() != exec || !isC || !cst.IsNil() {
+				continue
+			}
+			nilErr := false
+			for _, in := range st.Block().Instrs {
+				if es, ok := in.(*ssa.Store); ok && es.Addr == ssa.Value(errCell) {
+					if ec, ok := es.Val.(*ssa.Const); ok && ec.IsNil() {
+						nilErr = true
+					}
+				}
+			}
+			if !nilErr {
+				continue
+			}
+			dual := false
+			for _, fc := range factsAt(st.Block()) {
+				if strings.Contains(tbd.Of(fc.cond).String(), ".dual") && fc.truth {
+					dual = true
+				}
+			}
+			if !dual {
+				okS, whyS = false, "exec returns (nil, nil) at "+c.P.Pos(st.Pos())+" outside the FROM-less arm: a window that starts past the last row must be an empty row sequence — a CTE, a derived table, EXISTS or an inner array holding such a query fails (or panics) on the untyped nil"
+			}
+		}
+	}
+	// the same for results that are not spilled to cells (no deferred call in exec)
+	allInstrs(exec, func(b *ssa.BasicBlock, in ssa.Instruction) {
+		r, ok := in.(*ssa.Return)
+		if !ok || len(r.Results) != 2 {
+			return
+		}
+		c0, ok0 := r.Results[0].(*ssa.Const)
+		c1, ok1 := r.Results[1].(*ssa.Const)
+		if !ok0 || !ok1 || !c0.IsNil() || !c1.IsNil() {
+			return
+		}
+		dual := false
+		for _, fc := range factsAt(b) {
+			if strings.Contains(tbd.Of(fc.cond).String(), ".dual") && fc.truth {
+				dual = true
+			}
+		}
+		if !dual {
+			okS, whyS = false, "exec returns (nil, nil) at "+c.P.Pos(r.Pos())+" outside the FROM-less arm: a window that starts past the last row must be an empty row sequence"
+		}
+	})
+	c.Check(okS, "c05.window", "(*Query).exec/empty-window-shape", c.P.Pos(exec.Pos()), "no (nil, nil) exit outside the FROM-less arm", whyS)
 }
 
 func limSlHigh(s *ssa.Slice) ssa.Value {
